@@ -1505,7 +1505,9 @@ class Engine:
         try:
             a = inspect.getattr_static(cls, name)
         except AttributeError:
-            if cls in getattr(self, "partial_classes", ()):
+            if cls in getattr(self, "partial_classes", ()) or isinstance(selfv, SRef):
+                # (an opaque reference abstracts every subclass of its python class: an attribute the base class lacks is
+                #  outside the model, not an AttributeError of the real code)
                 # the contract models only the fields it names: reading another instance field is outside the contract
                 # (undecided), never an AttributeError of the real code
                 raise Unsupported(f"instance field {getattr(cls, '__name__', cls)}.{name} is not part of the contract's model")
